@@ -45,7 +45,7 @@ type Finding struct {
 }
 
 type findingsFile struct {
-	Open  []Finding `json:"open"`
+	Open  []Finding         `json:"open"`
 	Fixed []json.RawMessage `json:"fixed"`
 }
 
@@ -82,4 +82,18 @@ func Catch(f func()) (p interface{}) {
 	defer func() { p = recover() }()
 	f()
 	return nil
+}
+
+// KnownFinding handles a regression replay of a recorded finding: when the concrete input still
+// fails and the finding is listed as open, a KNOWN-FINDING line is printed (and true returned so
+// generators exclude the class); when it fails but is not listed, the test fails (a violation);
+// when it no longer fails nothing is printed.
+func KnownFinding(t *testing.T, col *evid.Collector, key string, stillFails bool, detail string) {
+	f, listed := OpenFinding(key)
+	switch {
+	case stillFails && listed:
+		col.Known(key, f.What)
+	case stillFails && !listed:
+		t.Fatalf("%s: %s", key, detail)
+	}
 }
